@@ -48,6 +48,7 @@ package main
 //   send-balance-mismatch, send-many-swaps, send-error-unexpected
 
 import (
+	"sync"
 	"errors"
 	"fmt"
 	"io"
@@ -602,6 +603,9 @@ type selRT struct {
 	handler http.Handler
 	swaps   []nut03.PostSwapRequest
 	panics  int
+	mu      sync.Mutex
+	gate    chan struct{} // when set: the first swap request reports its arrival and waits for release (or 400 ms)
+	arrived chan struct{}
 }
 
 func (rt *selRT) RoundTrip(req *http.Request) (resp *http.Response, err error) {
@@ -614,10 +618,21 @@ func (rt *selRT) RoundTrip(req *http.Request) (resp *http.Response, err error) {
 	if req.Method == http.MethodPost && strings.HasSuffix(req.URL.Path, "/v1/swap") && req.Body != nil {
 		body, _ := io.ReadAll(req.Body)
 		var sr nut03.PostSwapRequest
+		rt.mu.Lock()
 		if json.Unmarshal(body, &sr) == nil {
 			rt.swaps = append(rt.swaps, sr)
 		}
+		gate, arrived := rt.gate, rt.arrived
+		rt.gate, rt.arrived = nil, nil
+		rt.mu.Unlock()
 		req.Body = io.NopCloser(strings.NewReader(string(body)))
+		if gate != nil {
+			close(arrived)
+			select {
+			case <-gate:
+			case <-time.After(400 * time.Millisecond):
+			}
+		}
 	}
 	rec := httptest.NewRecorder()
 	rt.handler.ServeHTTP(rec, req)
@@ -1080,8 +1095,60 @@ func selRun7(sink *Sink, env *selEnv, ina, act []selProof, amount uint64, inc bo
 	selPlanMonitors(sink, w, all, len(ina) > 0, amount, inc, plan, err, cs)
 }
 
+// two Sends of one wallet at once: while the first one's swap request is with the mint, the second one must not hand out
+// the proof that swap is spending (a search for a failing schedule: the sequential model has nothing to say about it)
+func selConcurrentSends(sink *Sink, rng *rand.Rand, scratch string) {
+	env := newSelEnv(scratch, rng, [3]uint{0, 0, 0}, false)
+	defer env.Close()
+	for round := 0; round < 3; round++ {
+		x := env.tm.SignDirect(fmt.Sprintf("c18-conc-%d-%d", sink.rep.Seed, round), 4, env.idOf(0))
+		env.setStore(cashu.Proofs{x})
+		gate, arrived := make(chan struct{}), make(chan struct{})
+		env.rt.mu.Lock()
+		env.rt.gate, env.rt.arrived = gate, arrived
+		env.rt.mu.Unlock()
+		var aSent, bSent cashu.Proofs
+		var aErr, bErr error
+		doneA, doneB := make(chan struct{}), make(chan struct{})
+		go func() { defer close(doneA); aSent, aErr = env.sender.Send(3, env.url, false) }()
+		select {
+		case <-arrived:
+		case <-time.After(2 * time.Second):
+		}
+		go func() { defer close(doneB); bSent, bErr = env.sender.Send(4, env.url, false) }()
+		select {
+		case <-doneB:
+		case <-time.After(250 * time.Millisecond):
+		}
+		close(gate)
+		<-doneA
+		<-doneB
+		sink.Stat("concurrent-sends")
+		_ = aErr
+		for name, sent := range map[string]cashu.Proofs{"first": aSent, "second": bSent} {
+			var ys []string
+			for _, p := range sent {
+				ys = append(ys, Yhex(p.Secret))
+			}
+			if len(ys) == 0 {
+				continue
+			}
+			st, err := env.tm.M.ProofsStateCheck(ys)
+			if err != nil {
+				continue
+			}
+			for _, ps := range st {
+				if ps.State == nut07.Spent {
+					selViolate(sink, "send-returned-spent-proof:concurrent", fmt.Sprintf("two Sends (3 and 4 sat) of a wallet holding one 4 sat proof ran at once: the %s one returned a proof the mint has as SPENT (errors: %v / %v)", name, aErr, bErr), "concurrent Send(3) || Send(4)")
+				}
+			}
+		}
+	}
+}
+
 func streamC18Send(sink *Sink, rng *rand.Rand, tier string, scratch string) {
 	start := time.Now()
+	selConcurrentSends(sink, rng, scratch)
 	configs, perConfig := 8, 22
 	if tier == "thorough" {
 		configs, perConfig = 36, 50
